@@ -397,6 +397,17 @@ class Sim:
 
     def _local_trace(self, frame, event, arg):
         is_op = event == "opcode"
+        if event == "return" and self.hot_boost and self.mode == "prng":
+            # a task that has just obtained a value from a function of a file that writes shared state (cache lookups live
+            # there) is parked right after the return -- holding what it fetched -- and stalled while the others run on
+            code = frame.f_code
+            if code.co_filename in HOT_LINES:
+                w = self.current
+                if w is not None and w.thread.ident == threading.get_ident() and self.rng.random() < self.hot_boost * 0.5:
+                    w.pending = True
+                    w.stall = True
+                    self.stats["stalls"] += 1
+            return self._local_trace
         if is_op or event == "line":
             w = self.current
             if w is not None and w.thread.ident == threading.get_ident():
@@ -696,7 +707,24 @@ class Sim:
         rng = self.rng
         pol = self.policy
         n = len(acts)
-        if pol == "uniform" or n == 1:
+        if any(a[0] == "resume" and a[1].stall for a in acts):
+            # stalled tasks are resumed only when nothing else can run (whatever the policy)
+            free = [j for j, a in enumerate(acts) if not (a[0] == "resume" and a[1].stall)]
+            if free:
+                if pol in ("uniform", "stall") or len(free) == 1:
+                    return free[rng.randrange(len(free))]
+                sub = [acts[j] for j in free]
+                return free[self._choose_among(sub, idle)]
+            j = rng.randrange(n)
+            acts[j][1].stall = False
+            return j
+        return self._choose_among(acts, idle)
+
+    def _choose_among(self, acts, idle):
+        rng = self.rng
+        pol = self.policy
+        n = len(acts)
+        if pol in ("uniform", "stall") or n == 1:
             return rng.randrange(n)
         starts = [j for j, a in enumerate(acts) if a[0] != "resume"]
         resumes = [j for j, a in enumerate(acts) if a[0] == "resume"]
@@ -710,13 +738,6 @@ class Sim:
             if starts and rng.random() < 0.6:
                 return starts[-1]
             return rng.randrange(n)
-        if pol == "stall":
-            free = [j for j, a in enumerate(acts) if not (a[0] == "resume" and a[1].stall)]
-            if free:
-                return free[rng.randrange(len(free))]
-            j = rng.randrange(n)
-            acts[j][1].stall = False
-            return j
         if pol == "starve":
             # the parked task with the lowest canonical index is resumed only when nothing else can run
             if resumes:
